@@ -272,6 +272,9 @@ func c13(tier string, args []string) int {
 	}
 	// (b) move time under virtual time: every schedule within the bound; the search has no depth limit so only the timer ends it
 	c13MoveTime(run, tier, shard, n)
+	if shard == 2%n {
+		c13AfterEarlierSearches(run)
+	}
 	return run.FinishWorker()
 }
 
@@ -324,6 +327,70 @@ func c13MoveTime(run *vl.Run, tier string, shard, n int) {
 				run.Cap("move-time exploration capped at 30000 schedules")
 			}
 			run.SampleCat("movetime", map[string]interface{}{"fen": fen, "movetime_ms": mt.Milliseconds(), "schedules": execs, "latest_bestmove_virtual_ms": float64(maxT) / 1e6, "bound": bound})
+		}
+	}
+}
+
+// c13AfterEarlierSearches: the depth and node clauses on a Search instance that has searched before - after a movetime
+// search that ended by itself, after a ponder search that was hit (its timer runs) and after one that was stopped, each
+// followed by an idle of 10 or 20 ms (beyond the 5 ms polling period of a timer thread): the depth-limited search then
+// completes its iterations, whatever is left of the earlier search. Default schedule under the step-cost time model.
+func c13AfterEarlierSearches(run *vl.Run) {
+	type first struct {
+		name string
+		sl   search.Limits
+		then string
+	}
+	firsts := []first{
+		{"movetime 65 ms, depth 1", search.Limits{TimeControl: true, MoveTime: 65 * time.Millisecond, Depth: 1}, "wait"},
+		{"ponder with 300 ms on the clock, depth 1, ponderhit", search.Limits{Ponder: true, TimeControl: true, WhiteTime: 300 * time.Millisecond, BlackTime: 300 * time.Millisecond, Depth: 1}, "ponderhit"},
+		{"ponder with 300 ms on the clock, depth 1, stop", search.Limits{Ponder: true, TimeControl: true, WhiteTime: 300 * time.Millisecond, BlackTime: 300 * time.Millisecond, Depth: 1}, "stop"},
+	}
+	fenA, fenB := "rnbqkbnr/pppppppp/8/8/8/8/PPPPPPPP/RNBQKBNR w KQkq - 0 1", "7k/8/8/8/8/8/8/K7 b - - 0 1"
+	for _, f := range firsts {
+		for _, idle := range []time.Duration{10 * time.Millisecond, 20 * time.Millisecond} {
+			f, idle := f, idle
+			var res search.Result
+			body := func() {
+				config.Settings.Search.UseBook = false
+				s := search.NewSearch()
+				s.SetUciHandler(&mockDriver{})
+				pb, _ := position.NewPositionFen(fenB)
+				s.StartSearch(*pb, f.sl)
+				switch f.then {
+				case "ponderhit":
+					s.PonderHit()
+				case "stop":
+					s.StopSearch()
+				}
+				s.WaitWhileSearching()
+				sched.Sleep(idle)
+				pa, _ := position.NewPositionFen(fenA)
+				s.StartSearch(*pa, search.Limits{Depth: 4})
+				s.WaitWhileSearching()
+				res = s.LastSearchResult()
+			}
+			// step-cost time model: computing takes virtual time, so a timer thread left over from the first search gets its
+			// polls while the depth-limited search is still iterating (default schedule)
+			ex := &sched.Explorer{Bound: 0, Body: body, MaxExec: 1000, Deadline: run.DeadlineTime(), Opt: sched.Options{StepCost: 20 * time.Microsecond, MaxSteps: 30000000, MaxTicks: 40000}}
+			ex.Check = func(x *sched.Exec) {
+				run.AddTransitions(int64(x.Steps))
+				rep := map[string]interface{}{"kind": "schedule", "first_search": f.name, "idle": idle.String(), "then": "go depth 4 on " + fenA, "choices": x.Choices}
+				if x.Verdict != "" {
+					run.Violate("depth-after-earlier-search:"+x.Verdict, x.Detail, rep)
+					return
+				}
+				if res.SearchDepth != 4 && x.Deviations() == 0 {
+					run.Violate("depth-not-completed:after-earlier-search", fmt.Sprintf("after an earlier search (%s) and %v of idling, go depth 4 completed %d iterations", f.name, idle, res.SearchDepth), rep)
+				}
+			}
+			ex.Explore()
+			run.AddStates(1)
+			run.AddEvals(int64(ex.Executions))
+			if ex.Capped {
+				run.Cap("after-earlier-searches sessions capped")
+			}
+			run.SampleCat("depth limit after an earlier search", map[string]interface{}{"first": f.name, "idle": idle.String(), "schedules": ex.Executions})
 		}
 	}
 }
